@@ -98,6 +98,7 @@ pub struct ShellSim {
     pkt_ctr: u32,
     since_flush: u64,
     since_hk: u64,
+    rexmit_next: bool,
     recent_marked: Option<usize>,
     steps_done: u64,
     steps_total: u64,
@@ -147,7 +148,7 @@ impl ShellSim {
             now: T0, n: 2, profile: "mixed".into(),
             path: vec![], rtt: vec![], group: None, registered: vec![], pending: VecDeque::new(),
             ack_buf: vec![], rx_seqs: Default::default(), rx_count: 0, sendfail: vec![], bp: None, bp_frames: Default::default(),
-            next_seq: 1000, sent_seqs: vec![], pkt_ctr: 0, since_flush: 0, since_hk: 0, recent_marked: None, steps_done: 0, steps_total: 4000, victim_attempts: 0, quiet_on: false,
+            next_seq: 1000, sent_seqs: vec![], pkt_ctr: 0, since_flush: 0, since_hk: 0, rexmit_next: false, recent_marked: None, steps_done: 0, steps_total: 4000, victim_attempts: 0, quiet_on: false,
             c: HashMap::new(),
         }
     }
@@ -866,10 +867,25 @@ impl Engine for ShellSim {
                 }
             });
         }
+        if self.profile != "classic" && self.snap.stall_deselect && !self.snap.mode.is_classic()
+            && self.conns.iter().any(|c| c.stall_latched() || c.is_stall_gated())
+            && rng.random_range(0..25) == 0
+        {
+            // the guard is switched off while it holds a link, and the next datagram is a retransmission
+            self.rexmit_next = true;
+            self.bump("guard_switched_off_while_a_link_is_held");
+            return Some(json!({"ev": "SetCfg", "guard": false}));
+        }
         if r < 16 && self.profile != "classic" {
             return Some(match rng.random_range(0..3) {
                 0 => json!({"ev": "SetCfg", "classic": rng.random_range(0..2) == 0}),
-                1 => json!({"ev": "SetCfg", "guard": rng.random_range(0..3) != 0}),
+                1 => {
+                    let g = rng.random_range(0..3) != 0;
+                    // (the datagram that follows a switch-off is a retransmission half of the time: the override path
+                    // of handle_srt_packet must leave the links as clean as the scheduler does)
+                    self.rexmit_next = !g && rng.random_range(0..2) == 0;
+                    json!({"ev": "SetCfg", "guard": g})
+                }
                 _ => {
                     let t = [1000u64, 2000, 5000, 12_000][rng.random_range(0..4)];
                     json!({"ev": "SetCfg", "timeout": t})
@@ -944,7 +960,11 @@ impl Engine for ShellSim {
             return Some(json!({"ev": "Advance", "d": d}));
         }
         // 6. the client stream
-        let kindr = rng.random_range(0..100);
+        let mut kindr = rng.random_range(0..100);
+        if std::mem::take(&mut self.rexmit_next) {
+            kindr = 10;
+            self.bump("retransmission_right_after_guard_off");
+        }
         let (kind, seq) = if kindr < 8 {
             ("ctrl", 0)
         } else if kindr < 18 && !self.sent_seqs.is_empty() {
